@@ -374,9 +374,14 @@ type c31Fail struct{ class, msg string }
 
 // c31Judge decides a served response against the tree. startIdx is the node
 // the response must start at (-1: no such block exists => any non-empty
-// response is wrong).
-func c31Judge(w *c31World, q c31Req, startIdx int, resp *messages.BlockResponseMessage) (fails []c31Fail, nodes []int) {
+// response is wrong). flt is nil for a fault-free run; under an injected fault
+// (zz_verif_c31_fault_test.go) a requested field may be missing from a block
+// exactly when the harness made the lookup of that field for that block fail
+// (the unchanged getBlockData logs/ignores a failing field lookup and omits the
+// field) - counted in flt.omitted, everything else is judged as without a fault.
+func c31Judge(w *c31World, q c31Req, startIdx int, resp *messages.BlockResponseMessage, flt *c31Fault) (fails []c31Fail, nodes []int) {
 	failf := func(class, f string, a ...any) { fails = append(fails, c31Fail{class, fmt.Sprintf(f, a...)}) }
+	flt.resetOmitted()
 	effMax := uint64(messages.MaxBlocksInResponse)
 	if q.max != nil && uint64(*q.max) < effMax {
 		effMax = uint64(*q.max)
@@ -427,29 +432,50 @@ func c31Judge(w *c31World, q c31Req, startIdx int, resp *messages.BlockResponseM
 	}
 	for i, bd := range R {
 		n := w.tree.nodes[nodes[i]]
+		// a field whose lookup the harness made fail must not be presented as data
+		fromFailed := func(name, method string, present bool) {
+			if present && flt.onlyFailed(method, bd.Hash) {
+				failf("failed-lookup-presented", "block %d (%s): %s is presented although every %s lookup for this block was made to fail", i, n.tag, name, method)
+			}
+		}
 		wantH := q.fields&messages.RequestedDataHeader != 0
 		if (bd.Header != nil) != wantH {
-			failf("fields", "block %d (%s): header present=%v requested=%v", i, n.tag, bd.Header != nil, wantH)
+			if wantH && flt.lookupFailed("GetHeader", bd.Hash) {
+				flt.omit("header")
+			} else {
+				failf("fields", "block %d (%s): header present=%v requested=%v", i, n.tag, bd.Header != nil, wantH)
+			}
 		} else if bd.Header != nil && vHeaderHash(bd.Header) != n.hash {
 			failf("content", "block %d (%s): header does not hash to the block hash", i, n.tag)
 		}
+		fromFailed("header", "GetHeader", bd.Header != nil)
 		wantB := q.fields&messages.RequestedDataBody != 0
 		if (bd.Body != nil) != wantB {
-			failf("fields", "block %d (%s): body present=%v requested=%v", i, n.tag, bd.Body != nil, wantB)
+			if wantB && flt.lookupFailed("GetBlockBody", bd.Hash) {
+				flt.omit("body")
+			} else {
+				failf("fields", "block %d (%s): body present=%v requested=%v", i, n.tag, bd.Body != nil, wantB)
+			}
 		} else if bd.Body != nil && fmt.Sprintf("%x", []types.Extrinsic(*bd.Body)) != fmt.Sprintf("%x", []types.Extrinsic(*n.body)) {
 			failf("content", "block %d (%s): body differs from the stored body", i, n.tag)
 		}
-		blob := func(name string, got *[]byte, bit byte, stored []byte) {
+		fromFailed("body", "GetBlockBody", bd.Body != nil)
+		blob := func(name, method string, got *[]byte, bit byte, stored []byte) {
 			want := q.fields&bit != 0 && stored != nil
 			if (got != nil) != want {
-				failf("fields", "block %d (%s): %s present=%v, requested=%v stored=%v", i, n.tag, name, got != nil, q.fields&bit != 0, stored != nil)
+				if want && flt.lookupFailed(method, bd.Hash) {
+					flt.omit(name)
+				} else {
+					failf("fields", "block %d (%s): %s present=%v, requested=%v stored=%v", i, n.tag, name, got != nil, q.fields&bit != 0, stored != nil)
+				}
 			} else if got != nil && string(*got) != string(stored) {
 				failf("content", "block %d (%s): %s differs from the stored one", i, n.tag, name)
 			}
+			fromFailed(name, method, got != nil)
 		}
-		blob("receipt", bd.Receipt, messages.RequestedDataReceipt, n.receipt)
-		blob("message queue", bd.MessageQueue, messages.RequestedDataMessageQueue, n.msgq)
-		blob("justification", bd.Justification, messages.RequestedDataJustification, n.just)
+		blob("receipt", "GetReceipt", bd.Receipt, messages.RequestedDataReceipt, n.receipt)
+		blob("message queue", "GetMessageQueue", bd.MessageQueue, messages.RequestedDataMessageQueue, n.msgq)
+		blob("justification", "GetJustification", bd.Justification, messages.RequestedDataJustification, n.just)
 	}
 	return
 }
@@ -464,9 +490,11 @@ func (n *c31Net) GetRequestResponseProtocol(string, time.Duration, uint64) *netw
 	return nil
 }
 
-func c31Service(w *c31World) (*SyncService, *c31Net) {
+func c31Service(w *c31World) (*SyncService, *c31Net) { return c31ServiceOver(w.bs) }
+
+func c31ServiceOver(bs BlockState) (*SyncService, *c31Net) {
 	nw := &c31Net{}
-	return &SyncService{blockState: w.bs, network: nw,
+	return &SyncService{blockState: bs, network: nw,
 		seenBlockSyncRequests: lrucache.NewLRUCache[common.Hash, uint](100)}, nw
 }
 
@@ -492,6 +520,26 @@ func c31Serve(c *vcommon.Case, w *c31World, q c31Req) (served []int, ok bool) {
 }
 
 func c31ServeOn(c *vcommon.Case, w *c31World, q c31Req, svc *SyncService, who peer.ID) (served []int, ok bool) {
+	res := c31ServeX(c, w, q, svc, who, nil)
+	return res.nodes, res.ok
+}
+
+// c31Result is the judged outcome of one request.
+type c31Result struct {
+	nodes  []int // blocks of the response (as far as they are blocks of the tree)
+	ok     bool  // served and accepted by the oracle
+	served bool  // err == nil
+	known  bool  // refuted, attributed to C31-K1
+	err    error
+	resp   *messages.BlockResponseMessage
+}
+
+// c31ServeX sends one request and judges the outcome. flt != nil: svc runs over
+// the fault-injecting BlockState flt (zz_verif_c31_fault_test.go); the outcome
+// is judged by the same oracle (see c31Judge for the one difference), the wire
+// round trip of the response is checked too, and the fault-free coverage
+// counters are left alone (the fault family keeps its own).
+func c31ServeX(c *vcommon.Case, w *c31World, q c31Req, svc *SyncService, who peer.ID, flt *c31Fault) (res c31Result) {
 	m := q.msg()
 	if q.wire {
 		enc, err := m.Encode()
@@ -501,10 +549,10 @@ func c31ServeOn(c *vcommon.Case, w *c31World, q c31Req, svc *SyncService, who pe
 		}
 		if err != nil {
 			c.Inconclusive("request does not survive the wire format: " + err.Error())
-			return nil, false
+			return res
 		}
 		// the oracle judges the request the server was actually given
-		if q.max != nil && dec.Max == nil {
+		if q.max != nil && dec.Max == nil && flt == nil {
 			c.Count("wire_max0_means_unlimited", 1)
 		}
 		q.max, q.fields, q.dir = dec.Max, dec.RequestedData, dec.Direction
@@ -512,24 +560,31 @@ func c31ServeOn(c *vcommon.Case, w *c31World, q c31Req, svc *SyncService, who pe
 			q.num = n
 		}
 		m = dec
-		c.Count("requests_via_wire", 1)
+		if flt == nil {
+			c.Count("requests_via_wire", 1)
+		}
 	}
 	resp, err := svc.CreateBlockResponse(who, m)
 	c.Eval(1)
-	c.Count("requests", 1)
+	res.err, res.resp, res.served = err, resp, err == nil
 	dirS := "asc"
 	if q.dir == messages.Descending {
 		dirS = "desc"
 	}
+	if flt == nil {
+		c.Count("requests", 1)
+	}
 	if err != nil {
-		c.Count("err_"+dirS+"_"+q.what, 1)
-		if errors.Is(err, errMaxNumberOfSameRequest) {
-			c.Count("err_rate_limited", 1)
+		if flt == nil {
+			c.Count("err_"+dirS+"_"+q.what, 1)
+			if errors.Is(err, errMaxNumberOfSameRequest) {
+				c.Count("err_rate_limited", 1)
+			}
 		}
 		if resp != nil {
-			c.Violation("response-and-error", fmt.Sprintf("both a response and an error (%v) were returned", err), q.witness(w))
+			c.Violation("response-and-error", fmt.Sprintf("both a response and an error (%v) were returned", err), flt.witness(w, q.witness(w)))
 		}
-		return nil, false
+		return res
 	}
 	// which block must the response start at?
 	startIdx := -1
@@ -544,12 +599,19 @@ func c31ServeOn(c *vcommon.Case, w *c31World, q c31Req, svc *SyncService, who pe
 		// documented convention (message.go): "if request start is higher than our
 		// best block, only return blocks from our best block and below"
 		startIdx = w.main[N]
-		c.Count("desc_start_clamped_to_best", 1)
+		if flt == nil {
+			c.Count("desc_start_clamped_to_best", 1)
+		}
 	}
-	fails, nodes := c31Judge(w, q, startIdx, resp)
-	wit := q.witness(w)
+	fails, nodes := c31Judge(w, q, startIdx, resp, flt)
+	res.nodes = nodes
+	wit := flt.witness(w, q.witness(w))
 	wit["served"] = respTags(w, nodes)
 	wit["served_len"] = len(resp.BlockData)
+	if flt != nil {
+		// the served response must survive its own wire format
+		c31CheckWire(c, resp, wit)
+	}
 
 	effNum := q.num // by-number start after the documented clamping of a descending start to the best block
 	if q.dir == messages.Descending && effNum > N {
@@ -566,7 +628,7 @@ func c31ServeOn(c *vcommon.Case, w *c31World, q c31Req, svc *SyncService, who pe
 		if q.dir == messages.Ascending && N >= 1 {
 			q1 := q
 			q1.num = 1
-			f1, _ := c31Judge(w, q1, w.main[1], resp)
+			f1, _ := c31Judge(w, q1, w.main[1], resp, flt)
 			explained = len(f1) == 0
 		} else if q.dir == messages.Descending {
 			explained = len(resp.BlockData) == 0
@@ -574,14 +636,19 @@ func c31ServeOn(c *vcommon.Case, w *c31World, q c31Req, svc *SyncService, who pe
 		if explained {
 			c.Count("k1_genesis_by_number_not_served", 1)
 			c.Known("C31-K1", "by-number request for block 0 does not serve genesis: "+fails[0].msg, wit)
-			return nodes, false
+			res.known = true
+			return res
 		}
 	}
 	for _, f := range fails {
 		c.Violation(f.class, f.msg, wit)
 	}
 	if len(fails) > 0 {
-		return nodes, false
+		return res
+	}
+	res.ok = true
+	if flt != nil {
+		return res
 	}
 	// what was observed
 	c.Count("served_ok", 1)
@@ -644,7 +711,7 @@ func c31ServeOn(c *vcommon.Case, w *c31World, q c31Req, svc *SyncService, who pe
 	}
 	c.Distinct(fmt.Sprintf("%s|%s|%s|f%d|len%d|w%s", dirS, q.what, mx, q.fields&31, len(nodes), w.descr))
 	c.Sample(wit)
-	return nodes, true
+	return res
 }
 
 // ---------------------------------------------------------------- test
@@ -694,6 +761,25 @@ func TestVerifC31(t *testing.T) {
 	r.Floor("desc_exactly_reaches_block_1", 5)
 	r.Floor("served_across_finalised_boundary", 50)
 	r.Floor("plan_serve_roundtrips", 50)
+	// fault-injection family (zz_verif_c31_fault_test.go)
+	for _, m := range []string{"BestBlockNumber", "GetHeader", "GetHeaderByNumber", "GetHashByNumber", "GetAllBlocksAtNumber",
+		"IsDescendantOf", "Range", "GetBlockBody", "GetReceipt", "GetMessageQueue", "GetJustification"} {
+		need := 100
+		if m == "GetAllBlocksAtNumber" { // only reached by ascending by-hash requests that start on a fork
+			need = 40
+		}
+		r.Floor("fault_injected_"+m, need)
+	}
+	r.Floor("fault_hit_nonfirst_block", 2000)
+	r.Floor("fault_hit_nonfirst_block_GetHashByNumber", 300)
+	r.Floor("fault_pos_second", 500)
+	r.Floor("fault_pos_middle", 500)
+	r.Floor("fault_hit_last_block_of_longer_response", 500)
+	r.Floor("fault_served", 1000)
+	r.Floor("fault_served_with_failed_field_omitted", 500)
+	r.Floor("fault_refused_fault_free_was_served", 1000)
+	r.Floor("fault_refused_after_first_block_asc", 100)
+	r.Floor("fault_refused_after_first_block_desc", 100)
 
 	// ---- planning: every (a,b), a<=300, b<=400 (one case per a), seed independent
 	r.Fixed("plan", 301, func(c *vcommon.Case) {
@@ -875,6 +961,23 @@ func TestVerifC31(t *testing.T) {
 		c31Serve(c, w, c31Req{what: "genesis", byHash: true, hash: w.tree.nodes[0].hash, dir: dir, max: u32p(2), fields: 31})
 	})
 
+	// fault injection: fixed (request, method, N) triples, the first one is the minimal witness of the seeded
+	// "descending by-number lookup failure => break" change (2 blocks requested, the 2nd lookup fails)
+	faultCorpus := c31FaultCorpus()
+	r.Fixed("fault-corpus", len(faultCorpus), func(c *vcommon.Case) {
+		w := fixedWorld(c)
+		if w == nil {
+			return
+		}
+		e := faultCorpus[c.Idx]
+		q := e.mk(w)
+		c.Count("fault_corpus_entries", 1)
+		_, base := c31FaultBaseline(c, w, q)
+		if !c31FaultOne(c, w, q, base, e.method, e.n, e.sticky, c.Idx%2 == 1) {
+			c.Inconclusive("fault corpus entry never reached its fault: " + e.name)
+		}
+	})
+
 	nWorlds := 8
 	if r.Thorough() {
 		nWorlds = 32
@@ -921,6 +1024,19 @@ func TestVerifC31(t *testing.T) {
 						a, b, len(got), a, b), map[string]any{"world": w.descr, "a": a, "b": b, "served": respTags(w, got)})
 				}
 			}
+		}
+	})
+
+	// ---- fault injection: every generated request is re-run with the N-th call of each BlockState method it uses
+	// failing, N aimed at the 1st / 2nd / middle / last block of the would-be response
+	r.Cases("fault", r.Scale(320), func(c *vcommon.Case) {
+		k := c.Idx % nWorlds
+		w := getWorld(c, fmt.Sprintf("w%d", k), r.Seed*1000003+uint64(k), k)
+		if w == nil {
+			return
+		}
+		for i := 0; i < 10; i++ {
+			c31FaultFamily(c, w, c31GenReq(c.R, w))
 		}
 	})
 
